@@ -164,6 +164,30 @@ CLAIMED['C06'] = (
     'F8 (echo double conversion), F16 (output directive, 37 report lines), F21 (compound currency units), F22 (3 declarations); F6, F7, F23 fixed in /repo',
     'Lean 4 theorems over an SI-definition unit model + kernel-decided catalogue obligations (translator) + exhaustive differential correspondence')
 
+CLAIMED['C13'] = (
+    'Lean theorems over a scheduling model (pool of workers = (seed, position); schedule = arbitrary list of worker indices, i.e. every pool size, iteration count, '
+    'assignment and interleaving): with pairwise distinct worker seeds no two iterations consume overlapping generator positions (induction over the schedule), hence '
+    'pairwise distinct sample vectors for an injective generator; a pool that inherits the parent state duplicates draws (the pinned F3 behaviour, fixed); uniform / '
+    'triangular / binomial transforms stay in their support; the file holds one row per successful task. The freshness hypothesis and the position bookkeeping are '
+    'checked on the real pool on every run through the env-guarded event log (generator state digests before / after each task, per pid), the Lean schedule model is '
+    'run on the observed schedule, and real runs (HIP-RA-X, GEOPHIRES; 1..16 workers; all five distributions; failing iterations; contention batches) are checked '
+    'for distinct samples, support and rows = successes.',
+    'statistical independence is not expressible; the generator is an abstract injective stream (numpy trusted); a 10 s pylocker time-out dropping a row is runtime behaviour '
+    'outside the model (rows vs worker-logged appends is compared on every run); F3 and F24 (rows lost under lock contention) fixed in /repo',
+    'Lean 4 induction over schedules + hypothesis validation and differential runs against the real process pool (hook log)')
+
+CLAIMED['C14'] = (
+    'Lean theorems over a character-level model of row construction (substring match of "  <output>: ", unique-match rule, value extraction) and of the shared file: '
+    'the row equals the header cells with unfound outputs removed, so it is aligned iff every output is found exactly once (kernel-evaluated F12 witnesses otherwise); any '
+    'completion order yields a permutation of the successful rows and a failing iteration removes only its own; min / max / mean / variance specifications, mean between '
+    'min and max, and independence of row order (permutation invariance). Tie: every row of real runs is re-simulated from the base file plus its recorded samples and the '
+    'outputs re-extracted by the Lean row model from the fresh report (cell-by-cell string equality, header order); the statistics are recomputed exactly in Lean from '
+    'the rows and compared with the JSON (1e-9) and the text block (JSON = text, formatted); the multiset of file rows is compared with the rows the workers logged under '
+    'contention; runs with a known failing subset.',
+    'float summation order not modelled (1e-9); pylocker is not assumed (integrity is observed); known finding F12 (absent / ambiguous output label shifts columns and '
+    'crashes the summary)',
+    'Lean 4 theorems over row / file / statistics models + replay of every row and exact recomputation of the statistics (differential)')
+
 CLAIMED['C08'] = (
     'Lean refinement proof over the client state machine (cwd, argv, cache, files; operations request / rewrite / chdir), for every finite history '
     'incl. failing requests and rewrites between calls: the outputs of the (repaired) client equal those of a cache-free, history-free specification '
